@@ -181,17 +181,20 @@ func main() {
 			"on the real store (NewLayerManager + rootnode/refnode/layernode driven through go-fuse's RawFileSystem bridge with LOOKUP/CREATE/RMDIR/OPEN/READ requests [seq-fuse], and getLayer/getLayerInfo/use/release called directly [seq-api]) over an in-memory registry with 2 images x 2 real eStargz layers (one shared); " +
 			"successor = replay on a fresh store + 1 operation; states deduplicated by canonical form (reference model uses[(ref,toc)] + refcounter, layer table, resolveLayerCache, refPool counters, node tree, Done() counts of cached layer objects); oracle evaluated on every transition. " +
 			"seq-fault: for every distinct state up to the fault depth, every registry request of its history (per manifest/config/layer blob) fails once. " +
-			"non-trivial = distinct states in which a resolved layer has been released down to zero (re-acquisition reachable); for seq-fault: executions where operations follow the failed one",
+			"conc: 2-3 clients (lookup = getLayer+Verify, use, release; also a single lookup whose other layer's blob request fails) race on one LayerManager under the cooperative scheduler (store/manager.go, util/namedmutex instrumented), all schedules within the preemption / free-switch bounds, oracle at quiescence (counts = reference model, lookup succeeds iff valid, what a client holding a use got from its lookup is still the live un-released layer object, all uses releasable afterwards, fresh lookup succeeds). " +
+			"non-trivial = distinct states in which a resolved layer has been released down to zero (re-acquisition reachable); for seq-fault: executions where operations follow the failed one; for conc: distinct schedule traces",
 		Assumptions: []string{
 			"kernel model: every operation walks from the mount root with LOOKUP requests (no dentry caching), FORGET is never sent, one request at a time",
 			"in-memory registry (lib/memreg) stands in for the network; no retrying transport, so one failed request = the request failed after all transport retries",
 			"store config: NoPrefetch, NoBackgroundFetch (their goroutines issue registry requests at scheduler-dependent times), memory metadata store, no Prometheus namespace",
 			"real time does not pass: the 120 s manifest-cache sleep (store/refs.go:102) and the layer TTL cache (fs/layer) never expire within a history, the 30 s resolve timeout (store/manager.go:209) never fires",
 			"the Done() spy replaces cached layer objects by a delegating wrapper after each operation",
+			"sequential histories run under the cooperative scheduler with the default schedule (running thread continues until it blocks, then the lowest runnable thread id): the order of getLayer's per-layer resolver goroutines is fixed to manifest order there; other orders are explored by the conc part only",
+			"conc: sequential consistency at the instrumented operations of store/manager.go and util/namedmutex; fs/layer, fs/remote, store/refs.go, go-fuse and the registry client run atomically between them (their internal locks are never held across a scheduling point); getLayer's leaked blocked resolver goroutines at the end of an execution are not a verdict (DeadlockOK)",
 		},
 		QuickBudget: 4 * time.Minute, ThoroughBudget: 30 * time.Minute,
 		Parts: func(tier string) []runner.Part {
-			return append(seqParts(tier), concParts(tier)...)
+			return append(concParts(tier), seqParts(tier)...) // the small concurrency part first: it must not starve behind the BFS under load
 		},
 	})
 }
